@@ -265,6 +265,17 @@ func c08Run(c c08Case) *Violation {
 		gotPath = back.Path
 	}
 	if row.Mounted && row.Mount != "" {
+		// Mount-pathed targets are built with path.Join (documented), which resolves dot
+		// segments of the *escaped* path. A percent-encoded dot segment (%2E%2E) is one a
+		// browser resolves before sending and net/http's mux redirects away; how it should
+		// combine with a literal ".." is not something the property fixes: out of domain.
+		for _, seg := range strings.Split(strings.ToLower(c.RawPath), "/") {
+			switch seg {
+			case "%2e", "%2e%2e", ".%2e", "%2e.":
+				st("C08").add("inconclusive", 1)
+				return nil
+			}
+		}
 		wantPath = path.Clean(row.Mount + "/" + u.Path)
 		gotPath = path.Clean(gotPath)
 	}
